@@ -55,7 +55,7 @@ var props = map[string]propInfo{
 	"C11": {Level: "fault_enumeration", QuickS: 60, ThoroughS: 600},
 	"C12": {Level: "exploration", QuickS: 60, ThoroughS: 600},
 	"C13": {Level: "model_checking", QuickS: 60, ThoroughS: 600},
-	"C14": {Level: "exploration", Race: true, QuickS: 60, ThoroughS: 600},
+	"C14": {Level: "exploration", Race: true, QuickS: 100, ThoroughS: 600},
 	"C15": {Level: "model_checking", QuickS: 60, ThoroughS: 600},
 	"C16": {Level: "fault_enumeration", QuickS: 60, ThoroughS: 600},
 	"C17": {Level: "model_checking", QuickS: 45, ThoroughS: 600},
@@ -280,7 +280,12 @@ func runCmd(args []string) {
 			cmd.Env = append(os.Environ(), "GOMAXPROCS=1")
 			if pi.Race {
 				rl := filepath.Join(scratch, fmt.Sprintf("race_%d", i))
-				cmd.Env = append(cmd.Env, "GORACE=halt_on_error=0 exitcode=0 history_size=3 log_path="+rl, "VERIF_RACELOG="+rl)
+				// throughput must not depend on what a page fault costs (on a freshly restored sandbox a first touch of memory has
+				// been seen to cost two orders of magnitude more than on a warm one): ThreadSanitizer clears the shadow of large
+				// objects with memset instead of remapping it, and the Go scavenger marks freed pages lazily (MADV_FREE) instead of
+				// unmapping them, so the resident set is populated once and then stays mapped
+				cmd.Env = append(cmd.Env, "GORACE=halt_on_error=0 exitcode=0 history_size=3 clear_shadow_mmap_threshold=1073741824 log_path="+rl, "VERIF_RACELOG="+rl,
+					"GODEBUG=madvdontneed=0")
 			}
 			var so, se strings.Builder
 			cmd.Stdout, cmd.Stderr = &so, &se
